@@ -47,6 +47,17 @@ Proof.
   unfold py_shr. rewrite shiftr_div by lia. reflexivity.
 Qed.
 
+(* what FixedPointMult needs from Range: high = low + wr asks for wr+1 bits, the wr-bit wire keeps wr of them.
+   Proved from the unfolding so that it only depends on the mask being at least wr bits wide. *)
+Lemma Range_window wr low a : 0 <= wr -> 0 <= low ->
+  Range_propagate wr (low + wr) low a = trunc wr (a / 2 ^ low).
+Proof.
+  intros Hw Hl. unfold Range_propagate. cbv zeta. rewrite Wire_put_trunc.
+  unfold py_shr, py_shl. rewrite shiftr_div by lia.
+  match goal with |- trunc wr (Z.land ?x (Z.shiftl 1 ?k - 1)) = _ => change (Z.land x (Z.shiftl 1 k - 1)) with (trunc k x) end.
+  apply trunc_trunc_le. lia.
+Qed.
+
 (* ---- lists of bits *)
 Lemma in_seqZ a b i : In i (seqZ a b) <-> a <= i < b.
 Proof.
